@@ -232,7 +232,21 @@ def _stmts_with_parents(fnode):
     return out
 
 
+def _single_exit(repo, rep):
+    """every element's attributes go through the whole merge: the function
+    has one exit, its end (an early exit 'for the trivial case' skips the
+    case-insensitive merge of the statement's own entries)"""
+    f = repo.func("chameleon.tal.prepare_attributes")
+    rets = [r_ for r_ in ast.walk(f.node) if isinstance(r_, ast.Return)]
+    rep.check(len(rets) == 1 and f.node.body and rets[0] is f.node.body[-1],
+              "R07.1", f.qualname, "the attribute merge has a single exit, "
+              "after all of its steps (%d return statement(s))" % len(rets),
+              construct="merge-single-exit", where=L.where(
+                  f, rets[0].lineno if rets else None))
+
+
 def _prepare(repo, rep):
+    _single_exit(repo, rep)
     f = repo.func(PREP)
     site = f.qualname
     # identify the list and the map
